@@ -2,8 +2,9 @@
    ONLY statements: each is closed by `exact` of a lemma of theories/ (side conditions on the constants
    regenerated from /repo by the translator - YVGen.Consts, YVGen.Opcodes - are decided by computation). *)
 From Coq Require Import List NArith Bool String Lia.
-From YVGen Require Consts Opcodes AddLocalSites OperandArith ConstantSites.
+From YVGen Require Consts Opcodes AddLocalSites OperandArith ConstantSites CodeReads.
 From YV Require Import Show Bytecode Skeleton Verifier VerifierProofs VerifierRun VerifierRunProofs.
+From YV Require ParseLoc FullCompile FullCompileProofs.
 Import ListNotations.
 Open Scope N_scope.
 
@@ -75,6 +76,62 @@ Definition add_constant_sites_mutant : list string := ["make_constant"; "identif
 Theorem C04_constants_through_make_constant_refuted_mutant :
   add_constant_sites_mutant <> ["make_constant"%string] /\ 65536 mod 65536 = 0.
 Proof. split; [discriminate|reflexivity]. Qed.
+
+(* ---------- the compiler never looks at the bytes it has emitted ----------
+   A byte of chunk.code is an opcode or an OPERAND and compiler.rs keeps no record of instruction boundaries: a
+   decision taken on `code.last()` / `code[i]` may be taken on an operand (seeded change, round 7: the implicit
+   `nil; return` was skipped when the last byte was 57 = OpCode::Return, which a 57-element vec literal, a call with
+   57 arguments or local slot 57 also leave there; the function then runs off the end of its code).  Regenerated from
+   compiler.rs (translator/translate_c04.py, gen/CodeReads.v): every use of `.code` is `.code.len()` or a
+   back-patching write `.code[i] = b`, and `code`, `write`, `add_constant` are the only members of a chunk the
+   compiler names.  Run-time counterpart: limit family `operand_alias` (every operand form x every opcode number x
+   every kind of function, judged by the verifier and run). *)
+Definition no_code_reads (l : list (string * string)) : bool :=
+  forallb (fun u => negb (String.eqb (snd u) "read")) l.
+Definition members_known (l : list string) : bool :=
+  forallb (fun m => existsb (String.eqb m) ["add_constant"; "code"; "write"]%string) l.
+Theorem C04_side_compiler_never_reads_emitted_bytes :
+  no_code_reads CodeReads.code_uses = true /\ CodeReads.code_uses <> [] /\
+  members_known CodeReads.chunk_members = true.
+Proof. split; [vm_compute; reflexivity|]. split; [discriminate|vm_compute; reflexivity]. Qed.
+(* the table the same extractor yields for the seeded change (`let code = &compiler.chunk.code; code.last() == ...`
+   in ends_in_return), and why the last byte proves nothing: both functions below end in byte 57, the one without
+   its epilogue is rejected by the verifier, its last INSTRUCTION is BuildVec 57 *)
+Definition code_uses_peek : list (string * string) :=
+  [("patch_jump", "len"); ("patch_jump", "write"); ("patch_jump", "write"); ("patch_jump", "len");
+   ("ends_in_return", "read"); ("patch_offset_at", "len"); ("patch_offset_at", "write")]%string.
+Theorem C04_code_reads_refuted_peek : no_code_reads code_uses_peek = false.
+Proof. vm_compute; reflexivity. Qed.
+Theorem C04_last_byte_is_not_last_instruction :
+  (last (code fn_vec57_with_epilogue) 0 = N_of_opcode OpReturn) /\
+  (last (code fn_vec57_without_epilogue) 0 = N_of_opcode OpReturn) /\
+  (exists a, verify_fn false [fn_vec57_with_epilogue] fn_vec57_with_epilogue = FOk a) /\
+  (exists q r, verify_fn false [fn_vec57_without_epilogue] fn_vec57_without_epilogue = FReject q r) /\
+  (decode [fn_vec57_without_epilogue] fn_vec57_without_epilogue 57
+   = Some (mkInstr OpBuildVec 57 0 [], code_len fn_vec57_without_epilogue)).
+Proof. exact last_byte_is_not_last_instruction. Qed.
+(* a verified function never reaches the end of its code (corollary of decode_in_bounds) *)
+Theorem C04_never_runs_off_the_end : forall b p f a, check_fn b p f a = true ->
+  forall s, reachable b p f s -> pc s < code_len f.
+Proof. exact never_runs_off_the_end. Qed.
+
+(* ---------- the users of JUMP_SIZE_MAX agree on what it means ----------
+   Every comparison with the constant in compiler.rs (patch_jump, emit_loop, patch_offset_at), with its operator:
+   `x > J` lets x <= J pass, `x >= J` lets x <= J - 1 pass; what passes is narrowed with `as u16`, so each site must
+   let at most 65535 pass (seeded change, round 7: J made an exclusive bound 65536, two sites moved to `>=`, the
+   third - the PushExcHandler sizes - kept `>` and accepted exactly 65536, encoded as 0).  Run-time counterpart:
+   the jump families of the limit family (65534 .. 65537 per site). *)
+Definition site_passes_at_most_65535 (J : N) (s : string * string) : bool :=
+  if String.eqb (snd s) ">" then J <=? 65535 else if String.eqb (snd s) ">=" then J <=? 65536 else false.
+Theorem C04_side_jump_limit_sites_agree :
+  forallb (site_passes_at_most_65535 Consts.JUMP_SIZE_MAX) CodeReads.jump_limit_sites = true /\
+  (3 <= List.length CodeReads.jump_limit_sites)%nat.
+Proof. split; [vm_compute; reflexivity|vm_compute; lia]. Qed.
+Definition jump_limit_sites_mixed : list (string * string) :=
+  [("patch_jump", ">="); ("emit_loop", ">="); ("patch_offset_at", ">")]%string.
+Theorem C04_jump_limit_sites_refuted_mixed :
+  forallb (site_passes_at_most_65535 65536) jump_limit_sites_mixed = false /\ snd (encode16 65536) = 0 /\ fst (encode16 65536) = 0.
+Proof. vm_compute; repeat split; reflexivity. Qed.
 
 (* ---------- opcode numbering / names / layouts are those of chunk.rs and vm.rs today ---------- *)
 Theorem C04_opcode_names : map name_of_opcode all_opcodes = Opcodes.opcode_names.
@@ -177,6 +234,47 @@ Proof. exact (jump_limit_decide 65536). Qed.
 Theorem C04_jump_roundtrip : forall off, off <= 65535 -> decode16 (encode16 off) = off.
 Proof. exact encode16_roundtrip. Qed.
 
+(* ---------- the Gallina model of the WHOLE compiler (FullCompile.v), structural facts for ALL programs ----------
+   FullCompile.compile_program is a transcription of compiler.rs (every Rust function has its namesake); the tie to
+   the code is checked on every run by tools/props/C04.py (`fullcompile_tie`: the dump of the real compiler and of the
+   model are BYTE-IDENTICAL on the test scripts, core.yl, generated programs and a directed family in which the last
+   emitted byte of a function equals each opcode number).  These are the statements of FullCompileProofs.v that hold
+   for every located program (not only parser output); the `_partial` bridge lemmas to CompileExpr.v are not restated.
+   Not covered: a decoder-level restatement (Constant operand < #constants of the FINAL code) - the operand facts are
+   proved at the emission site (make_constant_lt, resolve_local_lt); the per-program verdict stays the verifier's. *)
+Module FC := FullCompile.
+Module FCP := FullCompileProofs.
+Theorem C04_model_compile_wf : forall (p : ParseLoc.lprogram) (f : FC.func), FC.compile_program p = FC.COk f -> FCP.wf_func f.
+Proof. exact FCP.compile_wf. Qed.
+Theorem C04_model_lines_parallel : forall p f g, FC.compile_program p = FC.COk f -> FCP.subfunc g f ->
+  List.length (FC.f_code g) = List.length (FC.f_lines g).
+Proof. exact FCP.lines_parallel. Qed.
+Theorem C04_model_code_bytes_in_range : forall p f g, FC.compile_program p = FC.COk f -> FCP.subfunc g f ->
+  Forall (fun b => b < 256) (FC.f_code g).
+Proof. exact FCP.code_bytes_in_range. Qed.
+Theorem C04_model_patch_jump_in_range : forall off s s', FC.patch_jump off s = FC.COk (tt, s') ->
+  N.of_nat (List.length (FC.k_code (FC.s_cur s)) - off - 2) <= 65535 /\
+  FC.k_code (FC.s_cur s') =
+    FC.set_nth (S off) (N.of_nat (List.length (FC.k_code (FC.s_cur s)) - off - 2) / 256)
+      (FC.set_nth off (N.of_nat (List.length (FC.k_code (FC.s_cur s)) - off - 2) mod 256) (FC.k_code (FC.s_cur s))).
+Proof. exact FCP.patch_jump_in_range. Qed.
+Theorem C04_model_emit_loop_in_range : forall ls l s s', FC.emit_loop ls l s = FC.COk (tt, s') ->
+  N.of_nat (FCP.clen s + 1 - ls + 2) <= 65535.
+Proof. exact FCP.emit_loop_in_range. Qed.
+Theorem C04_model_consts_bounded : forall p f g, FC.compile_program p = FC.COk f -> FCP.subfunc g f ->
+  N.of_nat (List.length (FC.f_consts g)) <= 65536 /\ FC.f_upvalues g <= 256.
+Proof. exact FCP.consts_bounded. Qed.
+Theorem C04_model_closure_descriptors : forall l lc s fu s1 s2,
+  FC.finalise_compiler l s = FC.COk (fu, s1) -> FC.emit_closure fu lc s1 = FC.COk (tt, s2) ->
+  FC.f_upvalues (fst fu) = N.of_nat (List.length (snd fu)) /\
+  FCP.clen s2 = (FCP.clen s1 + 3 + 2 * N.to_nat (FC.f_upvalues (fst fu)))%nat.
+Proof. exact FCP.closure_descriptors. Qed.
+Theorem C04_model_make_constant_lt : forall c s i s', FC.make_constant c s = FC.COk (i, s') ->
+  (N.to_nat i < List.length (FC.k_consts (FC.s_cur s')))%nat.
+Proof. exact FCP.make_constant_lt. Qed.
+Theorem C04_model_resolve_local_lt : forall name ls i, FC.resolve_local_in name ls = FC.LFound i -> (i < List.length ls)%nat.
+Proof. exact FCP.resolve_local_lt. Qed.
+
 Print Assumptions C04_side_stack_max.
 Print Assumptions C04_side_frames_max.
 Print Assumptions C04_side_locals_max.
@@ -189,6 +287,12 @@ Print Assumptions C04_side_handler_sum_recognised.
 Print Assumptions C04_operands_widened_refuted_narrow.
 Print Assumptions C04_side_constants_through_make_constant.
 Print Assumptions C04_constants_through_make_constant_refuted_mutant.
+Print Assumptions C04_side_compiler_never_reads_emitted_bytes.
+Print Assumptions C04_code_reads_refuted_peek.
+Print Assumptions C04_last_byte_is_not_last_instruction.
+Print Assumptions C04_never_runs_off_the_end.
+Print Assumptions C04_side_jump_limit_sites_agree.
+Print Assumptions C04_jump_limit_sites_refuted_mixed.
 Print Assumptions C04_opcode_names.
 Print Assumptions C04_opcode_numbering.
 Print Assumptions C04_vm_dispatches_exactly_these.
@@ -208,3 +312,12 @@ Print Assumptions C04_run_ok_program_sound.
 Print Assumptions C04_jump_limit_side_condition.
 Print Assumptions C04_jump_limit_refuted_at_65536.
 Print Assumptions C04_jump_roundtrip.
+Print Assumptions C04_model_compile_wf.
+Print Assumptions C04_model_lines_parallel.
+Print Assumptions C04_model_code_bytes_in_range.
+Print Assumptions C04_model_patch_jump_in_range.
+Print Assumptions C04_model_emit_loop_in_range.
+Print Assumptions C04_model_consts_bounded.
+Print Assumptions C04_model_closure_descriptors.
+Print Assumptions C04_model_make_constant_lt.
+Print Assumptions C04_model_resolve_local_lt.
